@@ -39,11 +39,13 @@ func NewWaiter(d Diode, opts ...WaiterConfigOption) *Waiter {
 
 	go func() {
 		<-w.ctx.Done()
+		VerifAt("waiter.cancel.woken", 0)
 
 		// Mutex is strictly necessary here to avoid a race in Next() (between
 		// w.isDone() and w.c.Wait()) and w.c.Broadcast() here.
 		w.mu.Lock()
 		w.c.Broadcast()
+		VerifAt("waiter.cancel.broadcast", 0)
 		w.mu.Unlock()
 	}()
 
@@ -54,7 +56,9 @@ func NewWaiter(d Diode, opts ...WaiterConfigOption) *Waiter {
 // to wake up any readers.
 func (w *Waiter) Set(data GenericDataType) {
 	w.Diode.Set(data)
+	VerifAt("waiter.set.beforebroadcast", 0)
 	w.c.Broadcast()
+	VerifAt("waiter.set.afterbroadcast", 0)
 }
 
 // Next returns the next data point on the wrapped diode. If there is not any
@@ -68,10 +72,13 @@ func (w *Waiter) Next() GenericDataType {
 		data, ok := w.Diode.TryNext()
 		if !ok {
 			if w.isDone() {
+				VerifAt("waiter.next.done", 0)
 				return nil
 			}
 
+			VerifAt("waiter.next.beforewait", 0)
 			w.c.Wait()
+			VerifAt("waiter.next.afterwait", 0)
 			continue
 		}
 		return data
